@@ -31,6 +31,8 @@ pub struct PipeState {
     pub reads: u64,
     /// number of times a read found nothing and parked
     pub parks: u64,
+    /// the endpoint dropped its end (the session is over)
+    pub dropped: bool,
     waker: Option<Waker>,
 }
 
@@ -99,12 +101,25 @@ impl PipeHandle {
         self.0.lock().unwrap().rx.iter().map(|x| x.len()).sum()
     }
 
+    /// has the endpoint dropped its end of the pipe?
+    pub fn is_closed(&self) -> bool {
+        self.0.lock().unwrap().dropped
+    }
+
     pub fn reads(&self) -> u64 {
         self.0.lock().unwrap().reads
     }
 
     pub fn parks(&self) -> u64 {
         self.0.lock().unwrap().parks
+    }
+}
+
+impl Drop for Pipe {
+    fn drop(&mut self) {
+        if let Ok(mut s) = self.0.lock() {
+            s.dropped = true;
+        }
     }
 }
 
